@@ -24,6 +24,16 @@ CLAIMS = {
   "¬HasWith ∧ ¬KeepVarNames; every generated name passes isReserved, which consults all keywords and all undeclared variables; only renameScope writes identifier names and never the "
   "program scope, labels, property or import/export names; hoisted names are registered in intermediate scopes; the name alphabets are valid and duplicate-free.",
   OTHER_NOTE, "DESIGN.md §4 C02"),
+ "C10": ("other",
+  "SSA provenance of the reader argument, error-edge return analysis, limit-guard domination on the CFG",
+  "Decides two structural clauses (R10.1, R10.2, DESIGN.md §4 C10): the byte/string helpers return their own parameter on error and never hand its backing array to an in-place minifier; every documented resource limit "
+  "(CSS nesting, CSS value count, SVG path length, JS string merge, JS var hoisting) is checked before the guarded region and its exceeded outcome leaves at once. Absence of panics, bounded recursion in general and linear time are NOT decided.",
+  OTHER_NOTE, "DESIGN.md §4 C10"),
+ "C11": ("other",
+  "call-site enumeration with resolved callees, error-discipline path rules on the CFG, constant evaluation of params / media type arguments, source classification (attribute vs element)",
+  "Decides, for every call from a minifier into the registry (R11.1-R11.3, DESIGN.md §4 C11): the error is bound, other errors leave through UpdateErrorPosition with the outer input and the token offset, ErrNotExist leaves the embedded bytes unchanged and scratch output is consumed only on success; "
+  "inline params exactly for attribute contexts; documented default media types per element. One known finding (DataURI discards the error). Re-escaping for the host syntax is not covered.",
+  OTHER_NOTE, "DESIGN.md §4 C11"),
  "C12": ("other",
   "use-enumeration of the reader parameter (whole-stream hand-off), call routing, ordering/domination rules on the CFG of the pipe wrappers and the response writer",
   "Decides why chunking cannot matter and that the wrappers deliver output and error (R12.1-R12.5, DESIGN.md §4 C12): each minifier hands its reader whole to parse.NewInput (which only uses Bytes()/io.ReadAll) and touches it nowhere else; "
